@@ -47,8 +47,10 @@ fp("dask/dataframe/dask_expr/_reductions.py", "ApplyConcatApply._lower", "Shuffl
 # C39
 fp("dask/dataframe/dask_expr/_merge.py", "Merge._lower", "Merge.is_broadcast_join", "Merge.broadcast_side",
    "Merge._is_single_partition_broadcast", "BroadcastJoin._layer", "HashJoinP2P._layer")
-fp("dask/dataframe/multi.py", "merge_chunk", "_split_partition")
-fp("dask/dataframe/dask_expr/_concat.py", "Concat._lower", "Concat._simplify_up", "Concat._divisions")
+fp("dask/dataframe/multi.py", "merge_chunk", "_split_partition", "pair_partitions", "merge_asof_padded")
+fp("dask/dataframe/dask_expr/_merge_asof.py", "MergeAsof._lower", "MergeAsofIndexed._layer", "compute_tails", "compute_heads",
+   "prefix_reduction", "suffix_reduction", "most_recent_tail", "most_recent_head")
+fp("dask/dataframe/dask_expr/_concat.py", "Concat._lower", "Concat._simplify_up", "Concat._divisions", "StackPartitionInterleaved._layer")
 # C47
 fp("dask/dataframe/io/csv.py", "pandas_read_text", "coerce_dtypes", "text_blocks_to_pandas", "_read_csv", "read_pandas", "to_csv",
    "_header_row", "block_mask", "block_mask_last", "_write_csv")
